@@ -28,7 +28,7 @@ def run(res, tier, replay):
     nbad = 0; nops = 0; worst = 0.0
     for c, t in zip(cases, trs):
         res.evaluations += 1; res.nontrivial.add(c.label + str(hash(c.scn.text()))); res.count("case-" + c.label.split(":")[0] + "-" + c.fmt)
-        if t.hang:
+        if t.hang or (t.crash and "[outer timeout]" in t.crash):        # (on a loaded machine the runner's wall-clock limit can come before the edge cap)
             if res.violation("%s: an API call did not return (edge cap / alarm)" % c.label, c.scn.text(), key="hang:" + c.label.split(":")[0] + ":" + c.label.split(":")[1]): nbad += 1
             continue
         if t.crash: continue          # C02's business
